@@ -235,7 +235,11 @@ func genC17(r *Rng, n int, tier string) {
 		for bc := 0; bc < 64; bc++ {
 			s := sizes[k%len(sizes)]
 			k++
-			emit("pix.export", s[0], s[1], pc, bc, pixBits(r, wib(s[0])*s[1]))
+			extra := 0
+			if k%9 == 0 { // CreateFromBytes installs the caller's slice: it may be longer than ceil(w/8)*h
+				extra = r.Range(1, 24)
+			}
+			emit("pix.export", s[0], s[1], pc, bc, pixBits(r, wib(s[0])*s[1]+extra))
 		}
 	}
 	for ; k < len(sizes); k++ { // thorough: the grid is larger than the number of pairs
